@@ -10,8 +10,9 @@
     - the custom [UnmarshalJSON] the generator writes for [sel..] types: decode into [base]
       (the same struct without the method), copy, then the statement groups in order;
     - [type XFragment selT3] has the method only through the generated forwarder.
-    Not modelled: a repeated key decodes on top of the previous value in Go; here the later value
-    replaces the earlier (responses never repeat keys).
+    Not modelled: when two keys of one object go to the same field, Go decodes the second on top
+    of the first value; the model answers [DUnmodelled] (responses of in-envelope operations
+    never do this).
     No proofs in this file. *)
 From Coq Require Import List NArith ZArith Bool String.
 From ApiFu Require Import Base.Sexp Gen.GoTypes.
@@ -27,16 +28,23 @@ Inductive json :=
 | JArr (l : list json)
 | JObj (kvs : list (bytes * json)).
 
-Inductive dres (A : Type) := DOk (a : A) | DError | DFuel.
+Inductive dres (A : Type) :=
+| DOk (a : A)
+| DError
+| DFuel
+| DUnmodelled.   (* two keys of one object land in the same struct field: Go decodes the second
+                    on top of the first; this model does not describe that *)
 Arguments DOk {A} a.
 Arguments DError {A}.
 Arguments DFuel {A}.
+Arguments DUnmodelled {A}.
 
 Definition dbind {A B} (r : dres A) (f : A -> dres B) : dres B :=
   match r with
   | DOk a => f a
   | DError => DError
   | DFuel => DFuel
+  | DUnmodelled => DUnmodelled
   end.
 
 Fixpoint dmap {A B} (f : A -> dres B) (l : list A) : dres (list B) :=
@@ -58,18 +66,8 @@ Fixpoint zero (t : gotype) : goval :=
   | GEmpty => VNil
   | GPtr _ => VNil
   | GSlice _ => VNilSlice
-  | GStruct fs =>
-      VStruct ((fix go (fs : list (name * gotag * gotype)) : list (name * gotag * goval) :=
-                  match fs with
-                  | [] => []
-                  | (n, tg, t') :: r => (n, tg, zero t') :: go r
-                  end) fs)
-  | GSel _ _ fs _ =>
-      VStruct ((fix go (fs : list (name * gotag * gotype)) : list (name * gotag * goval) :=
-                  match fs with
-                  | [] => []
-                  | (n, tg, t') :: r => (n, tg, zero t') :: go r
-                  end) fs)
+  | GStruct fs => VStruct (map (fun f : name * gotag * gotype => (fst (fst f), snd (fst f), zero (snd f))) fs)
+  | GSel _ _ fs _ => VStruct (map (fun f : name * gotag * gotype => (fst (fst f), snd (fst f), zero (snd f))) fs)
   | GFragRef _ => VStruct []
   end.
 
@@ -120,102 +118,117 @@ Definition set_field (i : nat) (v : goval) (sv : sval) : sval :=
 Section Decode.
   Variable P : program.
 
-  Fixpoint decode (fuel : nat) (t : gotype) (j : json) {struct fuel} : dres goval :=
-    match fuel with
-    | O => DFuel
-    | Datatypes.S f =>
-        let decode_struct (fs : list gofield) : dres sval :=
-          match j with
-          | JNull => match zero (GStruct fs) with VStruct z => DOk z | _ => DError end
-          | JObj kvs =>
-              (fix go (kvs : list (bytes * json)) (sv : sval) : dres sval :=
-                 match kvs with
-                 | [] => DOk sv
-                 | (k, v) :: rest =>
-                     match field_for_key fs k with
-                     | None => go rest sv
-                     | Some i =>
-                         match nth_error fs i with
-                         | Some fld => dbind (decode f (gf_type fld) v) (fun x => go rest (set_field i x sv))
-                         | None => DError
-                         end
-                     end
-                 end) kvs (match zero (GStruct fs) with VStruct z => z | _ => [] end)
-          | _ => DError
-          end in
-        match t with
-        | GString | GEnum _ =>
-            match j with JStr s => DOk (VStr s) | JNull => DOk (VStr []) | _ => DError end
-        | GInt =>
-            match j with JNum (NI z) => DOk (VInt z) | JNull => DOk (VInt 0) | _ => DError end
-        | GFloat =>
-            match j with JNum n => DOk (VFloat n) | JNull => DOk (VFloat (NI 0)) | _ => DError end
-        | GBool =>
-            match j with JBool b => DOk (VBool b) | JNull => DOk (VBool false) | _ => DError end
-        | GPtr t' =>
-            match j with
-            | JNull => DOk VNil
-            | _ => dbind (decode f t' j) (fun v => DOk (VPtr v))
-            end
-        | GSlice t' =>
-            match j with
-            | JNull => DOk VNilSlice
-            | JArr l => dbind (dmap (decode f t') l) (fun vs => DOk (VSlice vs))
+  (** one level of decoding, the decoder for the parts being [dec] *)
+  Definition dec_t : Type := gotype -> json -> dres goval.
+
+  (** a JSON object into a struct, key by key *)
+  Fixpoint decode_kvs (dec : dec_t) (fs : list gofield) (kvs : list (bytes * json)) (written : list nat) (sv : sval)
+    : dres sval :=
+    match kvs with
+    | [] => DOk sv
+    | (k, v) :: rest =>
+        match field_for_key fs k with
+        | None => decode_kvs dec fs rest written sv
+        | Some i =>
+            if existsb (Nat.eqb i) written then DUnmodelled
+            else
+              match nth_error fs i with
+              | Some fld => dbind (dec (gf_type fld) v) (fun x => decode_kvs dec fs rest (i :: written) (set_field i x sv))
+              | None => DError
+              end
+        end
+    end.
+
+  Definition zero_fields (fs : list gofield) : sval := map (fun f : gofield => (gf_name f, gf_tag f, zero (gf_type f))) fs.
+
+  Definition decode_struct (dec : dec_t) (fs : list gofield) (j : json) : dres sval :=
+    match j with
+    | JNull => DOk (zero_fields fs)
+    | JObj kvs => decode_kvs dec fs kvs [] (zero_fields fs)
+    | _ => DError
+    end.
+
+  (** [json.Unmarshal(b, &s.fname)] *)
+  Definition step_target (dec : dec_t) (fs : list gofield) (j : json) (fname : name) (sv : sval) : dres sval :=
+    match find_index (fun fld : gofield => bytes_eqb (gf_name fld) fname) fs with
+    | None => DError
+    | Some i =>
+        match nth_error fs i with
+        | Some fld => dbind (dec (gf_type fld) j) (fun x => DOk (set_field i x sv))
+        | None => DError
+        end
+    end.
+
+  (** the statement groups of a generated UnmarshalJSON, after [*s = base] *)
+  Fixpoint run_steps (dec : dec_t) (fs : list gofield) (j : json) (base : sval) (steps : list ustep) (sv : sval)
+    : dres sval :=
+    match steps with
+    | [] => DOk sv
+    | UAlways fname :: rest => dbind (step_target dec fs j fname sv) (run_steps dec fs j base rest)
+    | USwitch tn oks fname :: rest =>
+        match find_index (fun fld : gofield => bytes_eqb (gf_name fld) tn) fs with
+        | None => DError
+        | Some i =>
+            match nth_error base i with
+            | Some (_, _, VStr s) =>
+                if mem s (match oks with [] => [[]] | _ => oks end)
+                then dbind (step_target dec fs j fname sv) (run_steps dec fs j base rest)
+                else run_steps dec fs j base rest sv
             | _ => DError
             end
-        | GStruct fs => dbind (decode_struct fs) (fun sv => DOk (VStruct sv))
-        | GSel _ _ fs steps =>
-            dbind (decode_struct fs) (fun base =>
-              (fix run (steps : list ustep) (sv : sval) : dres goval :=
-                 match steps with
-                 | [] => DOk (VStruct sv)
-                 | st :: rest =>
-                     let target (fname : name) : dres sval :=
-                       match find_index (fun fld : gofield => bytes_eqb (gf_name fld) fname) fs with
-                       | None => DError
-                       | Some i =>
-                           match nth_error fs i with
-                           | Some fld => dbind (decode f (gf_type fld) j) (fun x => DOk (set_field i x sv))
-                           | None => DError
-                           end
-                       end in
-                     match st with
-                     | UAlways fname => dbind (target fname) (run rest)
-                     | USwitch tn oks fname =>
-                         match find_index (fun fld : gofield => bytes_eqb (gf_name fld) tn) fs with
-                         | None => DError
-                         | Some i =>
-                             match nth_error base i with
-                             | Some (_, _, VStr s) =>
-                                 if mem s (match oks with [] => [[]] | _ => oks end)
-                                 then dbind (target fname) (run rest)
-                                 else run rest sv
-                             | _ => DError
-                             end
-                         end
-                     end
-                 end) steps base)
-        | GFragRef fr =>
-            match lookup_def P (frag_type_name fr) with
-            | None => DError
-            | Some d =>
-                match td_type d, td_forward d with
-                | GSel _ _ fs _, false => decode f (GStruct fs) j     (* method set not inherited *)
-                | t', _ => decode f t' j
-                end
-            end
-        | GIface | GEmpty | GScalar _ => DError
         end
+    end.
+
+  (** a declared type: [type XFragment selT3] has the method only through the forwarder *)
+  Definition decode_def (dec : dec_t) (d : typedefn) (j : json) : dres goval :=
+    match td_type d, td_forward d with
+    | GSel _ _ fs _, false => dec (GStruct fs) j
+    | t', _ => dec t' j
+    end.
+
+  Definition decode_body (dec : dec_t) (t : gotype) (j : json) : dres goval :=
+    match t with
+    | GString | GEnum _ =>
+        match j with JStr s => DOk (VStr s) | JNull => DOk (VStr []) | _ => DError end
+    | GInt =>
+        match j with JNum (NI z) => DOk (VInt z) | JNull => DOk (VInt 0) | _ => DError end
+    | GFloat =>
+        match j with JNum n => DOk (VFloat n) | JNull => DOk (VFloat (NI 0)) | _ => DError end
+    | GBool =>
+        match j with JBool b => DOk (VBool b) | JNull => DOk (VBool false) | _ => DError end
+    | GPtr t' =>
+        match j with
+        | JNull => DOk VNil
+        | _ => dbind (dec t' j) (fun v => DOk (VPtr v))
+        end
+    | GSlice t' =>
+        match j with
+        | JNull => DOk VNilSlice
+        | JArr l => dbind (dmap (dec t') l) (fun vs => DOk (VSlice vs))
+        | _ => DError
+        end
+    | GStruct fs => dbind (decode_struct dec fs j) (fun sv => DOk (VStruct sv))
+    | GSel _ _ fs steps =>
+        dbind (decode_struct dec fs j) (fun base =>
+          dbind (run_steps dec fs j base steps base) (fun sv => DOk (VStruct sv)))
+    | GFragRef fr =>
+        match lookup_def P (frag_type_name fr) with
+        | None => DError
+        | Some d => decode_def dec d j
+        end
+    | GIface | GEmpty | GScalar _ => DError
+    end.
+
+  Fixpoint decode (fuel : nat) : dec_t :=
+    match fuel with
+    | O => fun _ _ => DFuel
+    | Datatypes.S f => decode_body (decode f)
     end.
 
   (** [json.Unmarshal(resp, &v)] with [v] of the type declared for operation [op] *)
   Definition decode_op (fuel : nat) (op : name) (j : json) : dres goval :=
     match lookup_def P (data_type_name op) with
     | None => DError
-    | Some d =>
-        match td_type d, td_forward d with
-        | GSel _ _ fs _, false => decode fuel (GStruct fs) j
-        | t', _ => decode fuel t' j
-        end
+    | Some d => decode_def (decode fuel) d j
     end.
 End Decode.
